@@ -54,22 +54,60 @@ def asFName (j : Json) : R FName := do
   | [s, b] => pure (← asStr s, ← asBool b)
   | _ => .error "file name: [stem, is_tsv] expected"
 
+def asCName (j : Json) : R CName := do
+  if j.isNull then return none
+  pure (some (← asStr j))
+
+def asAssign (j : Json) : R (CName × List Nat) := do
+  match ← asArr j with
+  | [n, v] => pure (← asCName n, ← asList asNat v)
+  | _ => .error "assignment file: [label or null, ids] expected"
+
+def cnameFile : CName → String
+  | none => "spike_clusters.npy"
+  | some l => "spikes.clusters" ++ l ++ ".npy"
+
+/-- the directory entries a `Target` stands for -/
+def targetFiles : Target → List String
+  | .assign n => [cnameFile n]
+  | .table n => [n.1 ++ (if n.2 then ".tsv" else ".csv")]
+  | .subsetStore => ["_phy_spikes_subset.spikes.npy", "_phy_spikes_subset.channels.npy", "_phy_spikes_subset.waveforms.npy"]
+
 def runC10 (op : String) (j : Json) : R Json := do
   match op with
   | "history" =>
-    let sc0 ← getNats j "clusters0"
     let ops ← fld j "ops" >>= asArr
     let f ← getRatD j "factor" 1
     let scale : Rat → Rat := fun x => x * f
     let fixed : Fixed Rat :=
       { spikeTemplates := ← getNats j "spike_templates", spikeSamples := ← getInts j "spike_samples",
         raw := ← getRatMat j "raw", chunks := ← fld j "chunks" >>= asList asPairN,
-        orders := ← getIntss j "orders", nsw := ← getNat j "nsw", nClosest := ← getNat j "closest" }
-    let mut d : Disk Rat := ⟨sc0, [], none, fixed⟩
-    let mut a : Abs := ⟨sc0, []⟩
+        orders := ← getIntss j "orders", nsw := ← getNat j "nsw", nClosest := ← getNat j "closest",
+        hasRaw := ← getBool j "has_raw" }
+    -- the directory as generated: assignment files by name, metadata files, the store of an earlier session's export
+    let assign0 ← fld j "assign0" >>= asList asAssign
+    let files0 ← fld j "files0" >>= asList fun e => do
+      pure ((← getStr e "stem", ← getBool e "tsv"), ← fld e "file" >>= asFile)
+    let subset0 ← (if hasFld j "subset0" then do
+        let s ← fld j "subset0"
+        pure (some (C03.saveSubset scale fixed.raw fixed.chunks fixed.spikeSamples fixed.spikeTemplates fixed.orders
+          (← getNats s "sel") fixed.nsw (C03.subsetWidth (← getNat s "max_n") fixed.nClosest)))
+      else pure none)
+    -- float tokens whose value is an integer (number parsing is transport): `[[token, integer], …]`
+    let fints ← fld j "fints" >>= asList fun e => do
+      match ← asArr e with
+      | [t, i] => pure (← asNat t, ← asInt i)
+      | _ => .error "fints entry"
+    let fnum : Nat → Option Int := fun t => fints.lookup t
+    let d00 : Disk Rat := ⟨assign0, files0, subset0, fixed⟩
+    -- the session is opened by a load (`first_load`)
+    let mut d : Disk Rat := step renderCell scale d00 .reload
+    let mut a : Abs := ⟨shown d00, []⟩
     let mut views : List Json := []
+    let mut steps : List Json := [jList Json.str ((touched d00 .reload).flatMap targetFiles)]
     for jo in ops do
       let o ← asOp jo
+      steps := steps ++ [jList Json.str ((touched d o).flatMap targetFiles)]
       d := step renderCell scale d o
       a := absStep a o
       match o with
@@ -79,13 +117,13 @@ def runC10 (op : String) (j : Json) : R Json := do
             let order ← fld jo "order" >>= asList asFName
             pure (visitOf d.files order)
           else pure ((d.files.filter fun p => !p.1.2) ++ (d.files.filter fun p => p.1.2)))
-        let mview := metadataViewIn parseTagged visit
+        let mview := metadataViewIn parseTagged fnum visit
         -- saved fields the property speaks about at this reload: the file of the last save is still there and is
         -- the last visited file that says anything about the field (view_field_eq_last)
         let claimed := a.fields.filter fun (fd : String × List (Nat × Cell)) =>
           let name : FName := ("cluster_" ++ fd.1, true)
           (d.files.lookup name == some (simpleTable renderCell fd.1 fd.2)) &&
-          ((visit.reverse.findSome? fun p => (fileField parseTagged fd.1 p).map fun _ => p.1) == some name)
+          ((visit.reverse.findSome? fun p => (fileField parseTagged fnum fd.1 p).map fun _ => p.1) == some name)
         let store := storeView d
         let query ← (if hasFld jo "query" then getNats jo "query" else pure [])
         let chq ← (if hasFld jo "chq" then getNats jo "chq" else pure [])
@@ -93,12 +131,13 @@ def runC10 (op : String) (j : Json) : R Json := do
           | some st => query.all st.spikeIds.contains
           | none => false
         views := views ++ [Json.mkObj [
-          ("view", jView (d.clusters, mview)),
+          ("view", jView (shown d, mview)),
           ("abs_clusters", jNats a.clusters),
           ("abs_fields", jList (fun (f : String × List (Nat × Cell)) =>
              Json.arr #[Json.str f.1, jList (fun (p : Nat × Cell) => Json.arr #[jNat p.1, jCell p.2]) f.2]) a.fields),
           ("claimed", jList (fun (f : String × List (Nat × Cell)) => Json.str f.1) claimed),
           ("files", jList (fun (f : FName × File) => Json.str (f.1.1 ++ (if f.1.2 then ".tsv" else ".csv"))) d.files),
+          ("assign_files", jList (fun (f : CName × List Nat) => Json.str (cnameFile f.1)) d.assign),
           ("templates", jNats d.fixed.spikeTemplates), ("samples", jInts d.fixed.spikeSamples),
           ("subset", Json.bool d.subset.isSome),
           ("store", jOpt (fun (st : C03.Store Rat) => Json.mkObj [("ids", jNats st.spikeIds),
@@ -111,7 +150,7 @@ def runC10 (op : String) (j : Json) : R Json := do
             | none => none)),
           ("tile", Json.bool (PhyVerif.C16.intervalsTile d.fixed.raw.length d.fixed.chunks))]]
       | _ => pure ()
-    pure (Json.mkObj [("views", Json.arr views.toArray)])
+    pure (Json.mkObj [("views", Json.arr views.toArray), ("steps", Json.arr steps.toArray)])
   | _ => .error s!"C10: unknown op {op}"
 
 end PhyVerif.Driver
